@@ -136,6 +136,8 @@ pub enum FV {
     /// protocol number (both `p as u8` and `u8::from(p)` of the library value must give it)
     Proto(u8),
     Unknown(Vec<u8>),
+    /// a value variant of the library that did not exist when this was written
+    Other(String),
     /// library value that has no canonical form here (flattener only)
     Odd(String),
 }
